@@ -274,10 +274,53 @@ func (ex *Exec) store(p *PtrVal, v Value) {
 	}
 	if p.cell != nil {
 		ex.noteAccess(p.cell, nil, 0, true)
-		p.cell.v = ex.copyVal(v)
+		ex.assignCell(p.cell, v)
 		return
 	}
 	ex.arrStore(p.arr, p.idx, v)
+}
+
+// assignCell stores v into c keeping the identity of the cells of structs and arrays already
+// there: pointers to fields and elements taken earlier must stay valid across a whole-value store.
+func (ex *Exec) assignCell(c *Cell, v Value) {
+	switch nv := v.(type) {
+	case *StructVal:
+		if old, ok := c.v.(*StructVal); ok && len(old.f) == len(nv.f) && old != nv {
+			for i := range old.f {
+				ex.assignCell(old.f[i], nv.f[i].v)
+			}
+			return
+		}
+	case *ArrObj:
+		if old, ok := c.v.(*ArrObj); ok && len(old.e) == len(nv.e) && old != nv {
+			for i := range old.e {
+				old.e[i] = ex.assignElem(old.e[i], nv.e[i])
+			}
+			return
+		}
+	}
+	c.v = ex.copyVal(v)
+}
+
+// assignElem is assignCell for array elements (which are stored without cells).
+func (ex *Exec) assignElem(old Value, v Value) Value {
+	switch nv := v.(type) {
+	case *StructVal:
+		if o, ok := old.(*StructVal); ok && len(o.f) == len(nv.f) && o != nv {
+			for i := range o.f {
+				ex.assignCell(o.f[i], nv.f[i].v)
+			}
+			return o
+		}
+	case *ArrObj:
+		if o, ok := old.(*ArrObj); ok && len(o.e) == len(nv.e) && o != nv {
+			for i := range o.e {
+				o.e[i] = ex.assignElem(o.e[i], nv.e[i])
+			}
+			return o
+		}
+	}
+	return ex.copyVal(v)
 }
 
 // arrLoad reads arr[idx]; idx is in bounds (checked by the creator of the pointer).
@@ -305,7 +348,7 @@ func (ex *Exec) arrLoad(a *ArrObj, idx *Term) Value {
 func (ex *Exec) arrStore(a *ArrObj, idx *Term, v Value) {
 	if idx.IsConst() {
 		ex.noteAccess(nil, a, int(idx.val), true)
-		a.e[idx.val] = ex.copyVal(v)
+		a.e[idx.val] = ex.assignElem(a.e[idx.val], v)
 		return
 	}
 	if t, isTerm := v.(*Term); isTerm && len(a.e) <= ex.cfg.maxIteChain {
@@ -316,7 +359,7 @@ func (ex *Exec) arrStore(a *ArrObj, idx *Term, v Value) {
 		return
 	}
 	i := ex.Concretize(idx, "array index")
-	a.e[i] = ex.copyVal(v)
+	a.e[i] = ex.assignElem(a.e[i], v)
 }
 
 // idxRange narrows the candidate range of a symbolic index using the cheap syntactic bound.
